@@ -25,6 +25,7 @@ IPHost == <<"10", "0", "0", "1">>
 HostsFull == {ExampleCom, AExample, BExample, XExample, Com, IPHost}
 HostsSmall == {ExampleCom, AExample}
 HostsMid == {ExampleCom, AExample, XExample, Com}
+HostsMid3 == {ExampleCom, AExample, XExample}
 
 P(segs, trail) == [segs |-> segs, trail |-> trail]
 PRoot == Root
